@@ -77,6 +77,7 @@ CHECKS["C20"] = dict(
         dict(name="license", test="^TestLicenseRoundtrip$", quick=dict(n=3000, procs=1, timeout=300), thorough=dict(n=200000, procs=2, timeout=1800)),
         dict(name="key", test="^TestKeyRoundtrip$", quick=dict(n=20000, procs=2, timeout=300), thorough=dict(n=2000000, procs=4, timeout=1800)),
         dict(name="collisions", test="^TestNoCollisions$", kind="plain", quick=dict(n=20000, procs=1, timeout=300), thorough=dict(n=300000, procs=2, timeout=1800)),
+        dict(name="concurrent", test="^TestConcurrentCipher$", kind="plain", quick=dict(n=20000, procs=1, timeout=300), thorough=dict(n=400000, procs=1, timeout=1800)),
         dict(name="reject", test="^TestDecryptRejects$", quick=dict(n=20000, procs=2, timeout=300), thorough=dict(n=2000000, procs=4, timeout=1800)),
         dict(name="parse", test="^TestParseArbitrary$", quick=dict(n=20000, procs=2, timeout=300), thorough=dict(n=2000000, procs=4, timeout=1800)),
         dict(name="parse-hostile", test="^(TestProbeParseOOM|TestParseHostile)$", quick=dict(n=3000, procs=2, timeout=300), thorough=dict(n=200000, procs=4, timeout=1800)),
